@@ -728,6 +728,17 @@ def _loop_term(loop, fi, ex, wrt, kind=None):
     if acc is None or term_node is None:
         return None
     it = src(loop.iter)
+    coeff_names = set()
+    if "zip(" in it and isinstance(loop.iter, ast.Call) and len(loop.iter.args) == 2 and len(names) == 2:
+        # zip(coefficients, elements): the coefficient-weighted form written with zip instead of enumerate + indexing
+        def is_elems(a):
+            t_ = src(a)
+            return t_.endswith(("._expressions", "_expressions")) or t_ in ("elems", "elements") or "_expressions" in t_
+        a0, a1 = loop.iter.args
+        looks_coeff = any(k_ in src(a0).lower() for k_ in ("coeff", "weight", "row", "q_sym", "q_plus"))
+        if looks_coeff and not is_elems(a0):
+            coeff_names.add(names[0])
+            it = ""         # fall through to the single-element form with names[-1] as the element
     if "zip(" in it:
         # dot product general case: names (l_elem, r_elem)
         if len(names) != 2:
@@ -749,7 +760,7 @@ def _loop_term(loop, fi, ex, wrt, kind=None):
         else:
             env[nm] = v
     s = src(loop)
-    tr = Tr(env, gather=lambda n: al.A("c") if isinstance(n, ast.Call) and dotted(n.func) == "Constant" and "coeffs[" in src(n) else None)
+    tr = Tr(env, gather=lambda n: al.A("c") if isinstance(n, ast.Call) and dotted(n.func) == "Constant" and ("coeffs[" in src(n) or any(isinstance(x_, ast.Name) and x_.id in coeff_names for x_ in ast.walk(n))) else None)
     try:
         got = tr.t(term_node)
     except Untranslatable:
